@@ -11,6 +11,11 @@ Lemma dangling_kinds_missing :
   is_missing (if resolve_ref_get_in_try then ETry (EBase xref_get_none_err) else EBase xref_get_none_err) = true.
 Proof. vm_compute. repeat split; reflexivity. Qed.
 
+(* FromPrimitive { typ, field, source } is what a derived reader wraps around the failure of one ENTRY of an object that exists:
+   the Option reader and the Vec element reader must not take it for "the reference I followed designates nothing" *)
+Lemma existing_object_not_missing : forall f e, is_missing (EFromPrim f e) = false /\ opt_none (EFromPrim f e) = false.
+Proof. intros f e. unfold opt_none. cbn [is_missing]. vm_compute. split; reflexivity. Qed.
+
 (* Resolve::get's wrapper is looked through by the Option reader *)
 Lemma shared_looked_through : forall e, is_missing e = true ->
   is_missing (if get_wraps_shared then EShared e else e) = true.
